@@ -433,10 +433,17 @@ func (v *Verifier) solveAll(results []*FuncResult) {
 			if v.knownNames[j.o.Name] && to > 6 {
 				to = 6 // listed findings are expected to fail: do not spend the full limit on them
 			}
-			j.o.Res = solve(q, v.Opts.WorkDir, to, v.Opts.Solvers)
-			if j.o.Res.Verdict == "unknown" && j.o.Res.TimeS < float64(to)/2 {
+			// stage 1: the full query with a short limit (most obligations answer in well under a
+			// second); then the reduced variants, which are sound to accept when unsat; the full
+			// query gets the whole limit last
+			first := to
+			if first > 6 {
+				first = 6
+			}
+			j.o.Res = solve(q, v.Opts.WorkDir, first, v.Opts.Solvers)
+			if j.o.Res.Verdict == "unknown" && j.o.Res.TimeS < float64(first)/2 {
 				// the solvers gave up or failed to start well before the limit: try once more
-				r2 := solve(q, v.Opts.WorkDir, to, v.Opts.Solvers)
+				r2 := solve(q, v.Opts.WorkDir, first, v.Opts.Solvers)
 				r2.TimeS += j.o.Res.TimeS
 				j.o.Res = r2
 			}
@@ -461,6 +468,12 @@ func (v *Verifier) solveAll(results []*FuncResult) {
 						j.o.Query = lean
 					}
 				}
+			}
+			if j.o.Res.Verdict == "unknown" && first < to {
+				r2 := solve(q, v.Opts.WorkDir, to, v.Opts.Solvers)
+				r2.TimeS += j.o.Res.TimeS
+				j.o.Res = r2
+				j.o.Query = text
 			}
 			if v.Opts.TwoSolvers && j.o.Res.Verdict == "unsat" {
 				// thorough: a second, different solver must agree
